@@ -781,6 +781,12 @@ WITNESSES = [
     {"name": "single-bucket-fast-path", "file": _F, "rule": "C08.b", "old": "        association = self.transform_bins(X)\n\n        indpred", "new": "        association = self.transform_bins(X)\n        first = int(association[0])\n        if numpy.all(association == first):\n            return getattr(self.estimators_[first], method)(X)\n\n        indpred"},
     {"name": "scatter-wrong", "file": _F, "rule": "C08.c", "old": "    return ind, est.predict_proba(X[ind, :])\n", "new": "    return association != i, est.predict_proba(X[ind, :])\n"},
 ]
+# witnesses of the rules added after the ninth round of independent changes
+WITNESSES += [
+    {"name": "fallback-only-when-all-rows-missed", "file": _F, "rule": "C08.b", "old": "        if Xmissed.shape[0] > 0:\n", "new": "        if numpy.all(indall):\n"},
+]
+
+
 TWINS = [
     {"name": "weights-branch-explicit", "file": _F, "old": "    Xi = X[ind, :]\n    yi = y[ind]\n    sw = sample_weight[ind] if sample_weight is not None else None\n\n    if nb_classes", "new": "    Xi = X[ind, :]\n    yi = y[ind]\n    sw = None if sample_weight is None else sample_weight[ind]\n\n    if nb_classes"},
 ]
